@@ -429,9 +429,9 @@ Qed.
 Lemma insert_asset_core pr k a v : core (insert_asset pr k a v) = core pr.
 Proof. reflexivity. Qed.
 Lemma request_asset_core pr c a o : core (request_asset pr c a o) = core pr.
-Proof. unfold request_asset. destruct (is_some _); reflexivity. Qed.
+Proof. reflexivity. Qed.
 Lemma request_asset_out pr c a o : p_out (request_asset pr c a o) = p_out pr.
-Proof. unfold request_asset. destruct (is_some _); reflexivity. Qed.
+Proof. reflexivity. Qed.
 
 (* projections of core equalities *)
 Lemma core_panic pr pr' : core pr' = core pr -> p_panic pr' = p_panic pr.
@@ -455,6 +455,17 @@ Proof. intros H. apply core_rest, rest_e2u in H. exact H. Qed.
 Lemma core_trans pr1 pr2 pr3 : core pr3 = core pr2 -> core pr2 = core pr1 -> core pr3 = core pr1.
 Proof. congruence. Qed.
 
+(* the record of parent links applied from the network (t_ptok) is outside everything the panic
+   analysis looks at *)
+Lemma ptok_core pr (f : gmap uuid uuid -> gmap uuid uuid) : core (pr <| t_ptok ::= f |>) = core pr.
+Proof. reflexivity. Qed.
+Lemma ptok_out pr (f : gmap uuid uuid -> gmap uuid uuid) : p_out (pr <| t_ptok ::= f |>) = p_out pr.
+Proof. reflexivity. Qed.
+(* the tail of the host's set-parent command: relay unless panicked *)
+Lemma relay_ok_core pr from m :
+  core (match p_panic pr with Some _ => pr | None => relay_except pr from m end) = core pr.
+Proof. destruct (p_panic pr); [reflexivity|apply relay_except_core]. Qed.
+
 Lemma foldl_core {B} (f : peer_state -> B -> peer_state) l pr :
   (forall a x, core (f a x) = core a) -> core (foldl f pr l) = core pr.
 Proof.
@@ -473,7 +484,7 @@ Definition cmd_panics (pr : peer_state) (c : cmd) : option panic_site :=
           if alive pr p && alive pr c && parent_differs pr c p then set_parent_outcome p c else None
       | _, _ => None
       end
-  | CSetParentCli c p =>
+  | CSetParentCli c p _ _ =>
       if alive pr p && alive pr c && parent_differs pr c p then set_parent_outcome p c else None
   | CAppInsert e _ _ => if alive pr e then None else Some PInsertDead
   | _ => None
@@ -494,14 +505,16 @@ Proof.
     destruct (alive pr pe) eqn:Ep; simpl; [|exact Hn].
     destruct (alive pr ce) eqn:Ec; simpl; [|exact Hn].
     destruct (parent_differs pr ce pe).
-    + pose proof (set_parent_twice_panic pr ce pe Hn Ep) as H.
-      destruct (p_panic (set_parent_twice pr ce pe)) eqn:E; [congruence|].
-      rewrite (core_panic _ _ (relay_except_core _ _ _)). congruence.
+    + set (sp := set_parent_twice pr ce pe <| t_ptok ::= <[c := p]> |>).
+      change (p_panic (match p_panic sp with Some _ => sp | None => relay_except sp from (MParented c p) end)
+              = set_parent_outcome pe ce).
+      rewrite (core_panic _ _ (relay_ok_core sp from (MParented c p))).
+      exact (set_parent_twice_panic pr ce pe Hn Ep).
     + rewrite Hn. rewrite (core_panic _ _ (relay_except_core _ _ _)). exact Hn.
   - destruct (alive pr p) eqn:Ep; simpl; [|exact Hn].
     destruct (alive pr c) eqn:Ec; simpl; [|exact Hn].
     destruct (parent_differs pr c p); [|exact Hn].
-    apply set_parent_twice_panic; assumption.
+    exact (set_parent_twice_panic pr c p Hn Ep).
   - destruct from as [c|]; [rewrite (core_panic _ _ (relay_except_core _ _ _))|]; exact Hn.
   - rewrite (core_panic _ _ (relay_except_core _ _ _)). exact Hn.
   - destruct (build_full_sync pr) as [pr1 ms] eqn:E.
@@ -543,11 +556,14 @@ Proof.
     destruct (t_u2e pr !! p) as [pe|]; [|reflexivity].
     destruct (negb (alive pr pe) || negb (alive pr ce)); [reflexivity|].
     destruct (parent_differs pr ce pe).
-    + destruct (p_panic (set_parent_twice pr ce pe));
-        rewrite ?(core_rest _ _ (relay_except_core _ _ _)); apply set_parent_twice_rest.
+    + set (sp := set_parent_twice pr ce pe <| t_ptok ::= <[c := p]> |>).
+      change (rest (match p_panic sp with Some _ => sp | None => relay_except sp from (MParented c p) end)
+              = rest pr).
+      rewrite (core_rest _ _ (relay_ok_core sp from (MParented c p))).
+      exact (set_parent_twice_rest pr ce pe).
     + destruct (p_panic pr); rewrite ?(core_rest _ _ (relay_except_core _ _ _)); reflexivity.
   - destruct (negb (alive pr p) || negb (alive pr c)); [reflexivity|].
-    destruct (parent_differs pr c p); [apply set_parent_twice_rest|reflexivity].
+    destruct (parent_differs pr c p); [exact (set_parent_twice_rest pr c p)|reflexivity].
   - destruct from as [c|]; [rewrite (core_rest _ _ (relay_except_core _ _ _))|]; reflexivity.
   - apply (core_rest _ _ (relay_except_core _ _ _)).
   - destruct (build_full_sync pr) as [pr1 ms] eqn:E.
@@ -564,7 +580,7 @@ Proof.
 Qed.
 
 Definition is_set_parent (c : cmd) : Prop :=
-  match c with CSetParentSrv _ _ _ | CSetParentCli _ _ => True | _ => False end.
+  match c with CSetParentSrv _ _ _ | CSetParentCli _ _ _ _ => True | _ => False end.
 
 (* what deferred commands can do to entities: spawn a fresh synchronised one, despawn, write
    components, clear the mark, and (set-parent commands only) edit Parent / Children *)
@@ -588,14 +604,15 @@ Proof.
   - destruct (t_u2e pr !! c) as [ce|]; [|exact H].
     destruct (t_u2e pr !! p) as [pe|]; [|exact H].
     destruct (negb (alive pr pe) || negb (alive pr ce)); [exact H|].
-    assert (H' : ents_all Q (if parent_differs pr ce pe then set_parent_twice pr ce pe else pr)).
+    assert (H' : ents_all Q (if parent_differs pr ce pe
+                             then set_parent_twice pr ce pe <| t_ptok ::= <[c := p]> |> else pr)).
     { destruct (parent_differs pr ce pe); [|exact H].
-      apply set_parent_twice_ents_all; [apply Hpar; exact I|exact H]. }
+      exact (set_parent_twice_ents_all Q pr ce pe (Hpar I) H). }
     destruct (p_panic _); [exact H'|].
     eapply ents_all_ext; [apply (core_ents _ _ (relay_except_core _ _ _))|exact H'].
   - destruct (negb (alive pr p) || negb (alive pr c)); [exact H|].
     destruct (parent_differs pr c p); [|exact H].
-    apply set_parent_twice_ents_all; [apply Hpar; exact I|exact H].
+    exact (set_parent_twice_ents_all Q pr c p (Hpar I) H).
   - destruct from as [c|]; [|exact H].
     eapply ents_all_ext; [apply (core_ents _ _ (relay_except_core _ _ _))|exact H].
   - eapply ents_all_ext; [apply (core_ents _ _ (relay_except_core _ _ _))|exact H].
@@ -621,7 +638,7 @@ Qed.
    issues no insert command) *)
 Definition no_hier_cmd (c : cmd) : Prop :=
   match c with
-  | CSetParentSrv _ _ _ | CSetParentCli _ _ | CAppInsert _ _ _ => False
+  | CSetParentSrv _ _ _ | CSetParentCli _ _ _ _ | CAppInsert _ _ _ => False
   | CRelay _ m => not_parented m
   | _ => True
   end.
@@ -829,7 +846,7 @@ Qed.
    the application's commands) *)
 Definition benign (c : cmd) : Prop :=
   match c with
-  | CSetParentSrv _ _ _ | CSetParentCli _ _ | CAppInsert _ _ _ => False
+  | CSetParentSrv _ _ _ | CSetParentCli _ _ _ _ | CAppInsert _ _ _ => False
   | CRelay _ m => match m with MAsset _ _ _ => True | _ => False end
   | _ => True
   end.
@@ -838,7 +855,7 @@ Definition benign (c : cmd) : Prop :=
 Definition plain (c : cmd) : Prop :=
   match c with
   | CSpawnSync _ _ | CInsertSync _ _ => False
-  | CSetParentSrv _ _ _ | CSetParentCli _ _ | CAppInsert _ _ _ => False
+  | CSetParentSrv _ _ _ | CSetParentCli _ _ _ _ | CAppInsert _ _ _ => False
   | CRelay _ m => match m with MAsset _ _ _ => True | _ => False end
   | _ => True
   end.
@@ -1206,7 +1223,7 @@ Definition cli_gen (pr : peer_state) (m : msg) (c : cmd) : Prop :=
   plain c \/
   (exists u, m = MSpawn u /\ c = CSpawnSync (p_next_ent pr) u) \/
   exists cu pu ce pe, m = MParented cu pu /\ t_u2e pr !! cu = Some ce /\ t_u2e pr !! pu = Some pe /\
-                      c = CSetParentCli ce pe.
+                      c = CSetParentCli ce pe cu pu.
 (* commands the host generates for message m from client `from` *)
 Definition srv_gen (pr : peer_state) (from : peer) (m : msg) (c : cmd) : Prop :=
   plain c \/
@@ -1215,12 +1232,12 @@ Definition srv_gen (pr : peer_state) (from : peer) (m : msg) (c : cmd) : Prop :=
 
 Lemma client_received_pollfixed pr k m : pollfixed (client_received pr k m) = pollfixed pr.
 Proof.
-  destruct m; simpl; repeat case_match; try reflexivity.
-  apply core_pollfixed, request_asset_core.
+  destruct m; simpl; repeat case_match; try reflexivity;
+    apply core_pollfixed, request_asset_core.
 Qed.
 Lemma client_received_out pr k m : p_out (client_received pr k m) = p_out pr.
 Proof.
-  destruct m; simpl; repeat case_match; try reflexivity. apply request_asset_out.
+  destruct m; simpl; repeat case_match; try reflexivity; apply request_asset_out.
 Qed.
 Lemma client_received_cmdq (P : cmd -> Prop) pr k m :
   (forall c, cli_gen pr m c -> P c) -> cmdq_all P pr -> cmdq_all P (client_received pr k m).
@@ -1252,10 +1269,6 @@ Proof.
   - repeat case_match; exact H.
   - repeat case_match; try exact H. apply (u2e_ok_delete _ _ _ u H).
   - case_match; exact H.
-  - eapply u2e_ok_ext; [| | |exact H].
-    + apply (core_u2e _ _ (request_asset_core _ _ _ _)).
-    + apply (core_next _ _ (request_asset_core _ _ _ _)).
-    + apply (core_ents _ _ (request_asset_core _ _ _ _)).
 Qed.
 
 Lemma u2e_ok_core pr pr' : core pr' = core pr -> u2e_ok pr -> u2e_ok pr'.
@@ -1269,8 +1282,6 @@ Proof.
   - rewrite (core_pollfixed _ _ (relay_except_core _ _ _)). reflexivity.
   - rewrite (core_pollfixed _ _ (relay_except_core _ _ _)). repeat case_match; reflexivity.
   - case_match; reflexivity.
-  - change (pollfixed (request_asset pr k0 a owner) = pollfixed pr).
-    apply core_pollfixed, request_asset_core.
   - match goal with |- pollfixed (push_cmd ?x _ _) = _ => change (pollfixed x = pollfixed pr) end.
     rewrite (core_pollfixed _ _ (relay_except_core _ _ _)). reflexivity.
 Qed.
@@ -1305,7 +1316,6 @@ Proof.
   - eapply u2e_ok_core; [apply relay_except_core|].
     repeat case_match; try exact H. apply (u2e_ok_delete _ _ _ u H).
   - case_match; exact H.
-  - change (u2e_ok (request_asset pr k0 a owner)). eapply u2e_ok_core; [apply request_asset_core|exact H].
   - match goal with |- u2e_ok (push_cmd ?x _ _) => change (u2e_ok x) end.
     eapply u2e_ok_core; [apply relay_except_core|]. exact H.
 Qed.
@@ -1317,8 +1327,6 @@ Proof.
   - apply relay_except_out_all; [|exact I]. eapply out_all_ext; [|exact H]. reflexivity.
   - apply relay_except_out_all; [|exact I]. repeat case_match; exact H.
   - case_match; exact H.
-  - eapply out_all_ext; [|exact H]. change (p_out (request_asset pr k0 a owner) = p_out pr).
-    apply request_asset_out.
   - eapply out_all_ext; [apply push_cmd_out|].
     apply relay_except_out_all; [|exact I]. eapply out_all_ext; [|exact H]. reflexivity.
 Qed.
@@ -1596,7 +1604,7 @@ Section GI.
   Hypothesis Hb : forall c, benign c -> P c.
   Hypothesis Hsrv : forall from cu pu, M (MParented cu pu) -> P (CSetParentSrv from cu pu).
   Hypothesis Hcli : forall pr cu pu ce pe, GS pr -> M (MParented cu pu) ->
-    t_u2e pr !! cu = Some ce -> t_u2e pr !! pu = Some pe -> P (CSetParentCli ce pe).
+    t_u2e pr !! cu = Some ce -> t_u2e pr !! pu = Some pe -> P (CSetParentCli ce pe cu pu).
 
   Lemma GS_ext pr pr' :
     t_u2e pr' = t_u2e pr -> p_next_ent pr' = p_next_ent pr -> p_ents pr' = p_ents pr -> GS pr -> GS pr'.
@@ -1861,7 +1869,7 @@ Record link_inv (pr : peer_state) (extra : list cmd) : Prop := {
   li_e2u : forall e u, t_e2u pr !! e = Some u -> old pr e;
   li_spawn : forall e u, queued pr extra (CSpawnSync e u) -> SCRIPT_LIMIT <= e /\ old pr e;
   li_isync : forall e u, queued pr extra (CInsertSync e u) -> u = e /\ e < SCRIPT_LIMIT;
-  li_cli : forall c p, queued pr extra (CSetParentCli c p) ->
+  li_cli : forall c p cu pu, queued pr extra (CSetParentCli c p cu pu) ->
            old pr c /\ old pr p /\ distinct_ids pr extra c p;
   li_next : SCRIPT_LIMIT <= p_next_ent pr;
 }.
@@ -1901,8 +1909,8 @@ Lemma link_inv_step pr extra pr' extra' :
      queued pr extra (CSpawnSync e u) \/ (SCRIPT_LIMIT <= e /\ old pr' e)) ->
   (forall e u, queued pr' extra' (CInsertSync e u) ->
      queued pr extra (CInsertSync e u) \/ (u = e /\ e < SCRIPT_LIMIT)) ->
-  (forall c p, queued pr' extra' (CSetParentCli c p) ->
-     queued pr extra (CSetParentCli c p) \/ (old pr c /\ old pr p /\ distinct_ids pr extra c p)) ->
+  (forall c p cu pu, queued pr' extra' (CSetParentCli c p cu pu) ->
+     queued pr extra (CSetParentCli c p cu pu) \/ (old pr c /\ old pr p /\ distinct_ids pr extra c p)) ->
   link_inv pr' extra'.
 Proof.
   intros HI Hnext Hs Hnew Huk Hlinks Hlive He2u Hspawn Hisync Hcli.
@@ -1926,15 +1934,15 @@ Proof.
   - intros e u Hq. destruct (Hspawn e u Hq) as [H|H]; [|exact H].
     destruct (li_spawn _ _ HI e u H) as [H1 H2]. split; [exact H1|apply Hold; exact H2].
   - intros e u Hq. destruct (Hisync e u Hq) as [H|H]; [|exact H]. eapply li_isync; eassumption.
-  - intros c p Hq. destruct (Hcli c p Hq) as [H|(Hc & Hp & Hd)].
-    + destruct (li_cli _ _ HI c p H) as (Hc & Hp & Hd).
+  - intros c p cu pu Hq. destruct (Hcli c p cu pu Hq) as [H|(Hc & Hp & Hd)].
+    + destruct (li_cli _ _ HI c p cu pu H) as (Hc & Hp & Hd).
       split; [apply Hold; exact Hc|split; [apply Hold; exact Hp|]]. eapply distinct_mono; eassumption.
     + split; [apply Hold; exact Hc|split; [apply Hold; exact Hp|]]. eapply distinct_mono; eassumption.
   - pose proof (li_next _ _ HI). lia.
 Qed.
 
 Definition tracked (c : cmd) : Prop :=
-  match c with CSpawnSync _ _ | CInsertSync _ _ | CSetParentCli _ _ => True | _ => False end.
+  match c with CSpawnSync _ _ | CInsertSync _ _ | CSetParentCli _ _ _ _ => True | _ => False end.
 
 (* entities may disappear or change components, not their SyncEntity or Parent (up to its tick) *)
 Definition ents_shrink (m m' : gmap ent entity) : Prop :=
@@ -1970,7 +1978,7 @@ Proof.
   - intros e u Hl. left. exists u. apply He2u. exact Hl.
   - intros e u H. left. apply Hq; [exact I|exact H].
   - intros e u H. left. apply Hq; [exact I|exact H].
-  - intros c p H. left. apply Hq; [exact I|exact H].
+  - intros c p cu pu H. left. apply Hq; [exact I|exact H].
 Qed.
 
 (* a state that agrees on everything the link invariant looks at *)
@@ -1989,7 +1997,7 @@ Definition newcmd_ok (pr : peer_state) (extra : list cmd) (c : cmd) : Prop :=
   match c with
   | CSpawnSync _ _ => False
   | CInsertSync e u => u = e /\ e < SCRIPT_LIMIT
-  | CSetParentCli c p => old pr c /\ old pr p /\ distinct_ids pr extra c p
+  | CSetParentCli c p _ _ => old pr c /\ old pr p /\ distinct_ids pr extra c p
   | _ => True
   end.
 
@@ -2018,7 +2026,7 @@ Proof.
   - intros e u Hl. left. exists u. apply He2u. exact Hl.
   - intros e u H. destruct (Hq (CSpawnSync e u) I H) as [H'|H']; [left; exact H'|contradiction].
   - intros e u H. destruct (Hq (CInsertSync e u) I H) as [H'|H']; [left; exact H'|right; exact H'].
-  - intros c p H. destruct (Hq (CSetParentCli c p) I H) as [H'|H']; [left; exact H'|right; exact H'].
+  - intros c p cu pu H. destruct (Hq (CSetParentCli c p cu pu) I H) as [H'|H']; [left; exact H'|right; exact H'].
 Qed.
 
 Lemma queued_grows pr pr' (G : cmd -> Prop) :
@@ -2145,7 +2153,7 @@ Proof.
     + rewrite lookup_insert_ne in H by congruence. left. exists u. exact H.
   - intros x u H. apply Hq in H as [H|H]; [left; exact H|discriminate].
   - intros x u H. apply Hq in H as [H|H]; [left; exact H|]. injection H as -> ->. right. auto.
-  - intros c p H. apply Hq in H as [H|H]; [left; exact H|discriminate].
+  - intros c p cu pu H. apply Hq in H as [H|H]; [left; exact H|discriminate].
 Qed.
 
 Lemma link_inv_created server pr k last :
@@ -2207,7 +2215,7 @@ Proof.
   - intros x v H. apply Hq in H as [H|H]; [left; exact H|]. injection H as -> ->. right.
     split; [apply (li_next _ _ HI)|exact Hoe].
   - intros x v H. apply Hq in H as [H|H]; [left; exact H|discriminate].
-  - intros c p H. apply Hq in H as [H|H]; [left; exact H|discriminate].
+  - intros c p cu pu H. apply Hq in H as [H|H]; [left; exact H|discriminate].
 Qed.
 
 (* pushing one command onto a state whose tracked fields are those of pr *)
@@ -2241,7 +2249,7 @@ Proof.
     apply (link_inv_alloc pr _ k u); try reflexivity. exact HI.
   - destruct (t_u2e pr !! c) as [ce|] eqn:Ec; [|exact HI].
     destruct (t_u2e pr !! p) as [pe'|] eqn:Ep; [|exact HI].
-    apply (link_inv_push pr _ k (CSetParentCli ce pe')); try reflexivity; auto.
+    apply (link_inv_push pr _ k (CSetParentCli ce pe' c p)); try reflexivity; auto.
     intros _. simpl.
     destruct (li_uk _ _ HI c ce Ec) as [Ho1 Hi1]. destruct (li_uk _ _ HI p pe' Ep) as [Ho2 Hi2].
     split; [exact Ho1|split; [exact Ho2|]]. exists c, p. split; [exact Hm|split; assumption].
@@ -2392,8 +2400,6 @@ Section OutGen.
     - apply relay_except_out_all; [|apply HM; exact I]. eapply out_all_ext; [|exact H]. reflexivity.
     - apply relay_except_out_all; [|apply HM; exact I]. repeat case_match; exact H.
     - case_match; exact H.
-    - eapply out_all_ext; [|exact H]. change (p_out (request_asset pr k0 a owner) = p_out pr).
-      apply request_asset_out.
     - eapply out_all_ext; [apply push_cmd_out|].
       apply relay_except_out_all; [|apply HM; exact I]. eapply out_all_ext; [|exact H]. reflexivity.
   Qed.
@@ -2414,8 +2420,12 @@ Proof.
   destruct (parent_changed last en) as [p|] eqn:Epc; [|split; assumption].
   destruct (t_e2u a !! e) as [u|] eqn:Eu; [|split; assumption].
   destruct (t_e2u a !! p) as [pu|] eqn:Epu; [|split; assumption].
-  split; [rewrite broadcast_core; exact Hc|].
-  apply broadcast_out_all; [exact Ha|]. simpl.
+  cbv zeta. set (a' := a <| t_ptok ::= delete u |>).
+  assert (Hc' : core a' = core pr) by exact Hc.
+  assert (Ha' : out_all msg_distinct a') by exact Ha.
+  destruct (bool_decide (t_ptok a !! u = Some pu)); [split; assumption|].
+  split; [rewrite broadcast_core; exact Hc'|].
+  apply broadcast_out_all; [exact Ha'|]. simpl.
   rewrite (core_e2u _ _ Hc) in Eu, Epu.
   unfold parent_changed in Epc. destruct (en_parent en) as [[q t]|] eqn:Ep; [|discriminate].
   destruct (last <? t); [|discriminate]. injection Epc as ->.
@@ -2436,8 +2446,12 @@ Proof.
   destruct (p_ents a !! p) as [pen|] eqn:Epen; [|split; assumption].
   destruct (en_sync pen) as [pu|] eqn:Epu; [|split; assumption].
   destruct (en_children pen); [split; assumption|].
-  split; [rewrite send_up_core; exact Hc|].
-  apply send_up_out_all; [exact Ha|]. simpl.
+  cbv zeta. set (a' := a <| t_ptok ::= delete u |>).
+  assert (Hc' : core a' = core pr) by exact Hc.
+  assert (Ha' : out_all msg_distinct a') by exact Ha.
+  destruct (bool_decide (t_ptok a !! u = Some pu)); [split; assumption|].
+  split; [rewrite send_up_core; exact Hc'|].
+  apply send_up_out_all; [exact Ha'|]. simpl.
   rewrite (core_ents _ _ Hc) in Epen.
   unfold parent_changed in Epc. destruct (en_parent en) as [[q t]|] eqn:Ep; [|discriminate].
   destruct (last <? t); [|discriminate]. injection Epc as ->.
@@ -2613,14 +2627,14 @@ Proof.
   - intros e u Hl. left. exists u. rewrite <- He2u. exact Hl.
   - intros e u H. left. apply (Hq (CSpawnSync e u) I H).
   - intros e u H. left. apply (Hq (CInsertSync e u) I H).
-  - intros x y H. left. apply (Hq (CSetParentCli x y) I H).
+  - intros x y xu yu H. left. apply (Hq (CSetParentCli x y xu yu) I H).
 Qed.
 
 Definition link_cmd_ok (c : cmd) : Prop :=
   match c with
   | CAppInsert _ _ _ => False
   | CSetParentSrv _ cu pu => cu <> pu
-  | CSetParentCli c p => c <> p
+  | CSetParentCli c p _ _ => c <> p
   | CRelay _ m => msg_distinct m
   | _ => True
   end.
@@ -2657,7 +2671,7 @@ Proof.
     + intros x v H. left. exists v. exact H.
     + intros x v H. left. apply queued_tail_. exact H.
     + intros x v H. left. apply queued_tail_. exact H.
-    + intros x y H. left. apply queued_tail_. exact H.
+    + intros x y xu yu H. left. apply queued_tail_. exact H.
   - (* CDespawn *) apply (link_inv_apply_shrink pr _ (CDespawn e) cs); [reflexivity|apply ents_shrink_delete|exact HI].
   - (* CInsertSync e u *)
     destruct (li_isync _ _ HI e u (queued_head_ _ _ _)) as [-> Hlt].
@@ -2695,7 +2709,7 @@ Proof.
     + intros x v H. left. unfold queued in *.
       rewrite (proj2 (proj2 (proj2 (proj2 (rest_inv _ _ (upd_ent_rest pr e _)))))) in H.
       apply queued_tail_. exact H.
-    + intros x y H. left. unfold queued in *.
+    + intros x y xu yu H. left. unfold queued in *.
       rewrite (proj2 (proj2 (proj2 (proj2 (rest_inv _ _ (upd_ent_rest pr e _)))))) in H.
       apply queued_tail_. exact H.
   - (* CApplyComp *)
@@ -2714,19 +2728,22 @@ Proof.
     pose proof (rest_e2u _ _ Hr) as He2u. apply rest_inv in Hr as (_ & Hu & _ & Hn & Hq).
     eapply (link_inv_parent_step pr _ _ cs ce pe'); try eassumption.
     + destruct (parent_differs pr ce pe').
-      * destruct (p_panic (set_parent_twice pr ce pe'));
-          rewrite ?(core_ents _ _ (relay_except_core _ _ _)); apply set_parent_twice_parent_step.
+      * set (sp := set_parent_twice pr ce pe' <| t_ptok ::= <[c := p]> |>).
+        change (parent_step ce pe' (p_ents pr)
+                  (p_ents (match p_panic sp with Some _ => sp | None => relay_except sp from (MParented c p) end))).
+        rewrite (core_ents _ _ (relay_ok_core sp from (MParented c p))).
+        exact (set_parent_twice_parent_step pr ce pe').
       * destruct (p_panic pr); rewrite ?(core_ents _ _ (relay_except_core _ _ _));
           apply parent_step_of_shrink, ents_shrink_refl.
     + intros x _ Hx. unfold queued in *. rewrite Hq in Hx. apply queued_tail_. exact Hx.
     + exists c, p. split; [exact Hc|split; assumption].
   - (* CSetParentCli *)
-    pose proof (apply_cmd_rest pr (CSetParentCli c p)) as Hr. simpl in Hr.
-    destruct (li_cli _ _ HI c p (queued_head_ _ _ _)) as (Ho1 & Ho2 & Hd).
+    pose proof (apply_cmd_rest pr (CSetParentCli c p cu pu)) as Hr. simpl in Hr.
+    destruct (li_cli _ _ HI c p cu pu (queued_head_ _ _ _)) as (Ho1 & Ho2 & Hd).
     destruct (negb (alive pr p) || negb (alive pr c)); [eapply link_inv_weaken; exact HI|].
     pose proof (rest_e2u _ _ Hr) as He2u. apply rest_inv in Hr as (_ & Hu & _ & Hn & Hq).
     eapply (link_inv_parent_step pr _ _ cs c p); try eassumption.
-    + destruct (parent_differs pr c p); [apply set_parent_twice_parent_step|].
+    + destruct (parent_differs pr c p); [exact (set_parent_twice_parent_step pr c p)|].
       apply parent_step_of_shrink, ents_shrink_refl.
     + intros x _ Hx. unfold queued in *. rewrite Hq in Hx. apply queued_tail_. exact Hx.
   - (* CApplyMaterial *)
@@ -2810,13 +2827,14 @@ Proof.
   - destruct (t_u2e pr !! c) as [ce|]; [|exact H].
     destruct (t_u2e pr !! p) as [pe'|]; [|exact H].
     destruct (negb (alive pr pe') || negb (alive pr ce)); [exact H|].
-    assert (H' : out_all msg_distinct (if parent_differs pr ce pe' then set_parent_twice pr ce pe' else pr)).
+    assert (H' : out_all msg_distinct (if parent_differs pr ce pe'
+                                       then set_parent_twice pr ce pe' <| t_ptok ::= <[c := p]> |> else pr)).
     { destruct (parent_differs pr ce pe'); [|exact H].
-      eapply out_all_ext; [apply set_parent_twice_out|exact H]. }
+      eapply out_all_ext; [exact (set_parent_twice_out pr ce pe')|exact H]. }
     destruct (p_panic _); [exact H'|]. apply relay_except_out_all; [exact H'|exact Hc].
   - destruct (negb (alive pr p) || negb (alive pr c)); [exact H|].
     destruct (parent_differs pr c p); [|exact H].
-    eapply out_all_ext; [apply set_parent_twice_out|exact H].
+    eapply out_all_ext; [exact (set_parent_twice_out pr c p)|exact H].
   - destruct from as [c|]; [apply relay_except_out_all; [|exact I]|]; exact H.
   - apply relay_except_out_all; assumption.
   - destruct (build_full_sync pr) as [pr1 ms] eqn:E.
